@@ -23,7 +23,36 @@ def rows_run(ctx, module, rows_file, name):
         raise ToolError("row validation printed nothing for %s:\n%s" % (rows_file, res.out[-1500:]))
     ctx.states += max(res.distinct, 1)
     ctx.transitions += max(res.generated, 1)
+    ctx.last_rows_out = res.out
     return int(m.group(1)), int(m.group(2)), re.sub(r"\s+", " ", m.group(4))[:700]
+
+
+def hist_classes(ctx):
+    """ParseClasses.tla, HistRows: code histograms with the accuracy log the table builder must pick; the compressor is
+    driven through the public Matcher trait with a valid parse that has exactly that histogram.  Returns (report, rows file)."""
+    mod = ctx.path("MC_ParseClasses.tla")
+    with open(mod, "w") as f:
+        f.write("---- MODULE MC_ParseClasses ----\nEXTENDS ParseClasses\n====\n")
+    cfg = ctx.path("MC_ParseClasses.cfg")
+    write_cfg(cfg)
+    res = tlc(ctx, mod, cfg, workers=1, name="MC_ParseClasses")
+    tlc_must_pass(ctx, res, "ParseClasses")
+    hc = ctx.path("hist_classes.ndjson")
+    if not os.path.exists(hc):
+        raise ToolError("ParseClasses wrote no histogram classes")
+    rows = ctx.path("written_rows.ndjson")
+    rep = ctx.path("seqhist.json")
+    vh(ctx, ["seqhist", ctx.seed, hc, rows, rep, ctx.tier], timeout=7200)
+    hj = json.load(open(rep))
+    ctx.states += hj["classes_run"] + hj["skipped_infeasible"]
+    ctx.transitions += max(res.generated, 1)
+    ctx.evaluations += hj["classes_run"]
+    ctx.cov["code_histogram_classes"] = {k: hj[k] for k in ("classes_run", "skipped_infeasible", "mismatches", "rows", "fse_tables_written", "block_not_compressed")}
+    for m in hj["first"]:
+        ctx.violation("valid parse with code histogram %s (block of %d bytes, first sequences %s): %s" % (json.dumps(m["class"]), m["block_len"], m["first_sequences"], m["error"]), m, tag="hist")
+    if hj["classes_run"] < 500 or hj["fse_tables_written"] < 500 or hj["rows"] < 100:
+        raise ToolError("vacuous histogram classes %s" % ctx.cov["code_histogram_classes"])
+    return hj, rows
 
 
 def check(ctx):
@@ -73,6 +102,18 @@ def check(ctx):
         ctx.violation("%d of %d encoder / predefined-table rows differ from the specification, first: %s" % (bad, n, first), {"rows": rows, "first": first}, tag="encrows")
     if n < 500 or len(ej["rows"]) < 3:
         raise ToolError("vacuous encoder rows %s" % ej["rows"])
+    # ---- what the compressor actually writes: table descriptions in real blocks, per code-histogram class ----
+    hj, wrows = hist_classes(ctx)
+    wn, wbad, wfirst = rows_run(ctx, "FSERows", wrows, "WrittenRows")
+    dm = re.search(r'<<\s*"DRIFT",\s*(\d+)\s*>>', ctx.last_rows_out)
+    drift = int(dm.group(1)) if dm else -1
+    ctx.cov["code_histogram_classes"].update({"rows_checked": wn, "bad": wbad, "accuracy_log_drift": drift})
+    if drift:
+        ctx.notes.append("drift (not a violation): %d written tables are valid but use another accuracy log than the as-built normalisation model predicts" % drift)
+    if wbad:
+        ctx.violation("%d of %d blocks carry a table description outside the format's limits or without a code the block uses, first: %s" % (wbad, wn, wfirst),
+                      {"rows": wrows, "first": wfirst}, tag="written")
+    n += wn
     ctx.evaluations += total_cases + n
     ctx.distinct += total_cases + n
     ctx.traces += total_cases + n
